@@ -273,6 +273,100 @@ func runC08(c *eng.Ctx) {
 		r3.Check(okGiven, f.Key+" given", f.Decl.Pos(), "a given list is stored as is", "a configured executeHookOnEvent list is not stored as given")
 	}
 
+	// the v1 conversion hands the declared list to WithEventTypes: executeHookOnEvent whenever it is declared (an
+	// empty list means "never"), the deprecated watchEvent only when it is not, nil when neither is. Decided per
+	// scenario on the values that can reach the argument of each reachable WithEventTypes call.
+	if f := r3.NeedFunc(pkgCfg + ".(*HookConfigV1).ConvertAndCheck"); f != nil {
+		info := f.Pkg.TypesInfo
+		g := p.GraphOf(f)
+		withTypes := p.Method(pkgKem, "MonitorConfig", "WithEventTypes")
+		fE := p.Field(pkgCfg, "OnKubernetesEventConfigV1", "ExecuteHookOnEvents")
+		fW := p.Field(pkgCfg, "OnKubernetesEventConfigV1", "WatchEventTypes")
+		if withTypes == nil || fE == nil || fW == nil {
+			r3.Unknown(f.Key+" event types", f.Decl.Pos(), "WithEventTypes / ExecuteHookOnEvents / WatchEventTypes not found")
+		} else {
+			type site struct {
+				n    *eng.GNode
+				call *ast.CallExpr
+			}
+			var sites []site
+			for _, n := range g.Nodes {
+				for _, m := range g.CallsAt(n, isObj(withTypes)) {
+					if len(m.Call.Args) == 1 {
+						sites = append(sites, site{n, m.Call})
+					}
+				}
+			}
+			scenario := func(e, w bool) func(eng.Fact) bool {
+				return func(fc eng.Fact) bool {
+					x, y, eq, isEq := eng.EqAtom(fc)
+					if !isEq {
+						return false
+					}
+					for i := 0; i < 2; i++ {
+						if eng.IsNil(info, y) && eng.IsField(info, x, fE) {
+							return eq == !e
+						}
+						if eng.IsNil(info, y) && eng.IsField(info, x, fW) {
+							return eq == !w
+						}
+						// len(<nil list>) == 0
+						if k, isK := eng.ConstInt(info, y); isK && k == 0 {
+							if cl := builtinCall(info, x, "len"); cl != nil && len(cl.Args) == 1 {
+								if eng.IsField(info, cl.Args[0], fE) && !e {
+									return eq
+								}
+								if eng.IsField(info, cl.Args[0], fW) && !w {
+									return eq
+								}
+							}
+						}
+						x, y = y, x
+					}
+					return false
+				}
+			}
+			okAll := len(sites) > 0
+			detail := ""
+			for _, sc := range []struct {
+				e, w bool
+				name string
+				want func(ast.Expr) bool
+			}{
+				{true, true, "executeHookOnEvent declared", func(x ast.Expr) bool { return x != nil && eng.IsField(info, x, fE) }},
+				{true, false, "executeHookOnEvent declared", func(x ast.Expr) bool { return x != nil && eng.IsField(info, x, fE) }},
+				{false, true, "only watchEvent declared", func(x ast.Expr) bool { return x != nil && eng.IsField(info, x, fW) }},
+				{false, false, "neither declared", func(x ast.Expr) bool {
+					return x == nil || eng.IsNil(info, x) || eng.IsField(info, x, fE) || eng.IsField(info, x, fW)
+				}},
+			} {
+				created := false
+				for _, st := range sites {
+					vals, reachable, ok := reachingValues(g, info, f.Decl.Body, st.n, st.call.Args[0], scenario(sc.e, sc.w))
+					if !reachable {
+						continue
+					}
+					created = true
+					if !ok || len(vals) == 0 {
+						okAll = false
+						detail = sc.name + ": the argument cannot be attributed"
+					}
+					for _, v := range vals {
+						if !sc.want(v) {
+							okAll = false
+							detail = sc.name + ": WithEventTypes can receive `" + eng.Short(p.Fset, v) + "`"
+						}
+					}
+				}
+				if !created {
+					okAll = false
+					detail = sc.name + ": WithEventTypes is not called"
+				}
+			}
+			r3.Check(okAll, f.Key+" declared event types", f.Decl.Pos(), "executeHookOnEvent when declared, else watchEvent, else nil", "the event types handed to the monitor are not `executeHookOnEvent when it is declared (also when empty), the deprecated watchEvent otherwise`: "+detail)
+		}
+	}
+
 	// ---- R4
 	r4 := c.Rule("C08.R4", "D:provenance", "applyFilter: in every returning branch the checksum is CalculateChecksum(string(json.Marshal(V))) where V is the value stored as FilterResult, or the whole object when there is no filter", 3)
 	runC08R4(c, r4)
